@@ -25,7 +25,15 @@ use std::process::{Command, Stdio};
 use std::time::{Duration, Instant};
 use verif_harness::{facts, run, sexp::*};
 
-const PROC: &str = "/verif/target/proc";
+/// scratch directory of this run: unique per top-level process, inherited by re-executed children
+fn proc_dir() -> String {
+    if let Ok(d) = std::env::var("VERIF_PROC_DIR") {
+        return d;
+    }
+    let d = format!("/verif/target/proc/{}", std::process::id());
+    std::env::set_var("VERIF_PROC_DIR", &d);
+    d
+}
 const SMALL_MAX: usize = 4 * 1024;
 const LARGE_MIN: usize = 200 * 1024;
 
@@ -256,7 +264,7 @@ fn stub_script(fault: &str, real: &str, cat: &str, head: &str, sleep: &str) -> O
 }
 
 fn make_stub_dir(fault: &str, orig_path: &str, real: &str) -> String {
-    let dir = format!("{PROC}/stubs/{fault}");
+    let dir = format!("{}/stubs/{fault}", proc_dir());
     let _ = std::fs::remove_dir_all(&dir);
     std::fs::create_dir_all(&dir).unwrap();
     let tool = |n: &str| which(n, "/bin:/usr/bin").or_else(|| which(n, orig_path)).unwrap_or_else(|| panic!("no {n}"));
@@ -562,7 +570,7 @@ fn main() {
     let timeout = Duration::from_secs_f64(timeout);
     let orig_path = std::env::var("PATH").unwrap_or_default();
     let real = real_rustfmt(&orig_path).expect("no real rustfmt on PATH");
-    std::fs::create_dir_all(PROC).unwrap();
+    std::fs::create_dir_all(proc_dir()).unwrap();
     let mut all: Vec<(String, String)> = vec![];
     for f in &files {
         all.extend(read_cases(f));
@@ -572,7 +580,7 @@ fn main() {
         // child with PATH = a directory holding only the real formatter (baked path) + the original PATH
         let dir = make_stub_dir("real", &orig_path, &real);
         let path_env = format!("{dir}:{orig_path}");
-        let file = format!("{PROC}/faults_same_cases.sexp");
+        let file = format!("{}/faults_same_cases.sexp", proc_dir());
         let text: String = all.iter().map(|(id, s)| case_line(id, s) + "\n").collect();
         std::fs::write(&file, text).unwrap();
         let (mut t, mut m, mut f, mut na, mut raw, mut facts_norm_differs) = (0, 0, 0, 0, 0, 0);
@@ -674,7 +682,7 @@ fn main() {
         }
     }
     selected.sort_by_key(|s| s.2 == "large");
-    let file = format!("{PROC}/faults_cases.sexp");
+    let file = format!("{}/faults_cases.sexp", proc_dir());
     let text: String = selected.iter().map(|s| case_line(&s.0, &s.1) + "\n").collect();
     std::fs::write(&file, text).unwrap();
     for s in &selected {
